@@ -25,7 +25,7 @@ claim('C08',
       'comparison entry point (call-graph closure), f64->BigInt only on floor(f) or under an integrality test, exhaustive '
       'decision tables of the eight comparison operators, max/min bias and cmp_nint_f64, mirrored (Float,Int)/(Int,Float) arms, '
       'incomparable => error, stable sort, infinities separated before partial exact conversions, and no pointer-identity shortcut (Rc::ptr_eq) anywhere in '
-      'the comparison closure (with a positive control); the folding form `into max|min` uses the same test as max|min; sort comparators raise on incomparable elements themselves.',
+      'the comparison closure (with a positive control); the folding form `into max|min` uses the same test as max|min; sort comparators raise on incomparable elements themselves; the Option results of two checked narrowings are never compared with each other.',
       'forbidden-callee reachability over the resolved call graph + finite decision tables from MIR')
 claim('C09',
       'Decides the Eq/Hash coherence discipline of dictionary keys structurally, not operation histories: canonical hashing '
@@ -63,7 +63,7 @@ claim('C04',
       '(delegation or equal effect signature), the argument side of every partial-application wrapper in Func::run/run1/run2, '
       'constructor helpers, call-or-partially-apply, the operand order of then/./.>/<./apply/of, the read-old -> rhs -> drop -> '
       'run2(old, rhs) -> assign order of op-assign, right sections for one-argument builtin calls, the 8-row splat/section decision table, in-order slot filling of sections, and no independent run1/run2 override that run neither calls '
-      'nor mirrors (including whether the path can reject its argument), and the lexer splitting every operator run other than ! < > = before a trailing `=`.',
+      'nor mirrors (including whether the path can reject its argument), and the lexer splitting every operator run other than ! < > = before a trailing `=`; nested PartialAppLast wrappers hold the earlier argument outside.',
       'sibling-implementation cross-check + operand provenance over MIR')
 claim('C05',
       'Decides the structural rules of the documented semantics, not equivalence with a reference interpreter: the exhaustive scope '
@@ -72,7 +72,7 @@ claim('C05',
       'counts decremented by one, Return absorbed only by calls, Throw only by try), declaration vs assignment layering over the '
       'Env parent chain, short-circuit polarity of and/or/coalesce, branch exclusivity of if, refusal of a redeclaration before any map write, and '
       'the left-associative grammar layering of or/coalesce over and over chains, every use of an environment in Closure::run being the fresh '
-      'scope, the try body running in the enclosing scope, fold builtins translating their body\'s Break, `into max|min` agreeing with max|min, `into first` ending the loop, and every successful insert storing the declared type.',
+      'scope, the try body running in the enclosing scope, fold builtins translating their body\'s Break, `into max|min` agreeing with max|min, `into first` ending the loop, and every successful insert storing the declared type, and the value of a keyed yield evaluated only after the key lookup.',
       'exhaustive arm tables from HIR + CFG cycle/dominance/guard-polarity queries over MIR')
 claim('C17',
       'Decides structural agreement of the freeze traversal with the evaluator, not semantic equivalence over programs: scope copies '
@@ -106,7 +106,7 @@ claim('C14',
       'and changed counts are violations. Also: NRes values are never silently discarded outside the reviewed idioms, control-flow error '
       'variants are built only at reviewed sites, peek loops make progress, partial division-like operations are zero-guarded, and every '
       'indexing operation (bounds checks, Index::index on Vec/slice/str/HashMap) is normaliser-derived or reviewed; std calls with index/range/radix preconditions and allocations sized by a user-supplied number are censused '
-      'too (the latter are listed known findings). Termination in general, stack depth and dependency panics '
+      'too (the latter are listed known findings); streams inheriting the draining len latch every error they return. Termination in general, stack depth and dependency panics '
       'are not decided.',
       'call-graph reachability census with reviewed triage tables + guard-polarity dominance')
 claim('C15',
@@ -124,7 +124,7 @@ claim('C16',
       'in both representations, mutual coverage of JSON kinds, no untriaged panic site in any codec body, and sign-before-split, checked '
       'exponent arithmetic and no leading-digit dropping in the exact decimal parser, the {:02x} template of hex_encode (decoded from the '
       'format_args encoding) against the decoder\'s two-digit chunks, a crate-wide lossy-cast census, and arbitrary-precision text->number '
-      'parsing (machine-typed parse sites reviewed; JSON integers through as_i64), plain-Display rendering in repr, per-interpolation format flags, and last-binding-wins dict literals.',
+      'parsing (machine-typed parse sites reviewed; JSON integers through as_i64), plain-Display rendering in repr, per-interpolation format flags, last-binding-wins dict literals, and Debug formatting on every repr path of write_string.',
       'paired decision tables from HIR patterns/MIR constants + census + callee discipline')
 claim('C13',
       'The equations f(xs) == reference(xs) are NOT decided (runtime values). Decided are only the clauses of the statement that are '
